@@ -112,7 +112,10 @@ def check(ck):
         t = prov.origin(gs, n, c.args[0]) if c.args else None
         if t is not None and t == ("elem", ("attr", ("param", fs.params[0]), "__bases__")):
             over_bases = True
-    mro = any(isinstance(x, ast.Attribute) and x.attr == "__mro__" for x in ast.walk(fs.node))
+    mro = any(isinstance(x, ast.Attribute) and x.attr == "__mro__" for x in ast.walk(fs.node)) or \
+        any(n_.kind == "for_body" and any(a_[0] == "call" and a_[1] in (("attr", ("global", "inspect"), "getmro"), ("global", "getmro")) and
+                                          a_[2] and a_[2][0] == ("param", fs.params[0])
+                                          for a_ in prov.value_alts(prov.origin(gs, n_, n_.ast.iter))) for n_ in gs.live_nodes())
     ck.require(over_bases or mro, "C07.2", "%s: base classes" % q.fn(fs), "recursion over __bases__ (or iteration over __mro__)",
                "slots declared by base classes are not collected: inherited slotted fields are dropped from the dump", q.loc(fs, fs.node))
     sets = [(n, c) for n in gl.live_nodes() for c in node_calls(n) if isinstance(c.func, ast.Name) and c.func.id == "setattr"]
@@ -214,8 +217,12 @@ def check(ck):
                 bad = []
                 for a in prov.value_alts(t):
                     table = a[0] == "item" and a[1] == ("param", "classes")
+                    # getattr(<module>, <name>) where the module can only be what __import__ / importlib returned in this call (the
+                    # import machinery waits for a first import that another thread is still running; a module picked out of
+                    # sys.modules can be half initialised and lack the class)
                     imported = a[0] == "call" and a[1] == ("global", "getattr") and len(a[2]) >= 2 and \
-                        prov.contains(a[2][0], lambda x: x[0] == "call" and x[1] == ("global", "__import__"))
+                        all(m_[0] == "call" and (m_[1] == ("global", "__import__") or (m_[1][0] == "attr" and m_[1][2] == "import_module"))
+                            for m_ in prov.value_alts(a[2][0]))
                     if not (table or imported):
                         bad.append(prov.show(a)[:70])
                 ck.require(not bad, "C07.8", "%s: class instantiated by `%s`" % (q.fn(fl), dump(c)[:50]),
@@ -286,20 +293,41 @@ def check(ck):
         cfgo = shape.Opaque("Config", {"serialize_method": shape.K(cfgname), "ignore_attribute": shape.K("_ignore"), "serialize_handlers": shape.D({})})
         ev = shape.Evaluator(prog, "jsonclass", lenient=True)
         res = ev.run(fdump, {"obj": bean, "serialize_method": shape.K(argname), "ignore_attribute": shape.K(None), "ignore": shape.K(None), "config": cfgo})
-        calls = [c for c in getattr(ev, "opaque_calls", []) if c[0] == "the serialisation method"]
         problems = []
-        if len(res) != 1 or res[0][1][0] != "return" or not isinstance(res[0][1][1], shape.D):
-            problems.append("dump does not return a dictionary (%r)" % ([o[:2] for (_d, o) in res],))
-        else:
-            out = res[0][1][1].items
+        # (how the class name is computed may fork the evaluation - module found or not, "__main__" or not -: every outcome is held
+        # to the same descriptor shape)
+        per_run = getattr(ev, "calls_per_result", None)
+        if not res:
+            problems.append("dump does not return")
+        for ri, (_dec, outc) in enumerate(res):
+            calls = [c for c in (per_run[ri] if per_run and ri < len(per_run) else getattr(ev, "opaque_calls", [])) if c[0] == "the serialisation method"]
+            if outc[0] != "return" or not isinstance(outc[1], shape.D):
+                problems.append("dump does not return a dictionary (%r)" % (outc[:2],))
+                continue
+            out = outc[1].items
             desc = out.get("__jsonclass__")
-            if not (isinstance(desc, shape.L) and len(desc.elts) == 2 and desc.elts[1] is params_v):
+            name_ok = isinstance(desc, shape.L) and len(desc.elts) == 2 and (
+                (isinstance(desc.elts[0], shape.K) and isinstance(desc.elts[0].v, str)) or
+                (isinstance(desc.elts[0], shape.Sym) and getattr(desc.elts[0], "pytype", None) is str))
+            def _same(a_, b_):
+                # the very value, or a container rebuilt element by element (each element dumped on its own) with equal content
+                if a_ is b_:
+                    return True
+                if isinstance(a_, shape.K) and isinstance(b_, shape.K):
+                    return type(a_.v) is type(b_.v) and a_.v == b_.v
+                if isinstance(a_, shape.L) and isinstance(b_, shape.L):
+                    return len(a_.elts) == len(b_.elts) and all(_same(x_, y_) for x_, y_ in zip(a_.elts, b_.elts))
+                if isinstance(a_, shape.D) and isinstance(b_, shape.D):
+                    return set(a_.items) == set(b_.items) and all(_same(a_.items[k_], b_.items[k_]) for k_ in a_.items)
+                return False
+            if not (name_ok and _same(desc.elts[1], params_v)):
                 problems.append("the descriptor is %r, not [<class name>, <params returned by the method>]" % (desc,))
             rest = dict((k, v) for k, v in out.items() if k != "__jsonclass__")
             if set(rest) != set(attrs_v.items) or any(rest[k] is not attrs_v.items[k] for k in rest):
                 problems.append("the fields are %r, not the attrs returned by the method %r" % (rest, attrs_v.items))
-        if len(calls) != 1 or calls[0][2] or calls[0][3]:
-            problems.append("the method is called %d time(s) (%r)" % (len(calls), [(c[2], c[3]) for c in calls]))
+            if len(calls) != 1 or calls[0][2] or calls[0][3]:
+                problems.append("the method is called %d time(s) (%r)" % (len(calls), [(c[2], c[3]) for c in calls]))
+        problems = sorted(set(problems))
         ck.require(not problems, "C07.5", "%s: object with a serialisation method (%s `%s`)" % (q.fn(fdump), how, mname),
                    "{'__jsonclass__': [name, params], **attrs} from one call of obj.%s()" % mname,
                    "dumping an object whose class defines the serialisation method `%s` (%s): %s" % (mname, how, "; ".join(problems)), q.loc(fdump, fdump.node))
@@ -320,7 +348,22 @@ def check(ck):
     gadd = cfg_of(fadd)
     st_add = [n for n in gadd.live_nodes() if n.kind == "stmt" and isinstance(n.ast, ast.Assign) and isinstance(n.ast.targets[0], ast.Subscript) and
               dump(n.ast.targets[0].value) == "self"]
-    cond_add = [n for n in st_add if any(gadd.nodes[i].kind == "branch" for i in dominators(gadd)[n.id])]
+    # (a guard that only separates "no class given" - the decorator-factory form - from a registration is no condition on the latter)
+    def _no_class_test(b_):
+        t_ = b_.test
+        return isinstance(t_, ast.Compare) and len(t_.ops) == 1 and isinstance(t_.ops[0], (ast.Is, ast.IsNot)) and \
+            isinstance(t_.left, ast.Name) and t_.left.id == "cls" and isinstance(t_.comparators[0], ast.Constant) and \
+            t_.comparators[0].value is None and b_.polarity == isinstance(t_.ops[0], ast.IsNot)
+    cond_add = [n for n in st_add if any(gadd.nodes[i].kind == "branch" and not _no_class_test(gadd.nodes[i]) for i in dominators(gadd)[n.id])]
+    if cond_add and len(st_add) == 1:
+        # guards that reject (raise) instead of registering are no silent skip: every normal return that hands back a registration
+        # passed the store
+        rets_add = [r_ for r_ in gadd.live_nodes() if r_.kind == "return" and not any(
+            _no_class_test(gadd.nodes[i]) is False and False for i in ())]
+        decorator_rets = [r_ for r_ in rets_add if any(gadd.nodes[i].kind == "branch" and isinstance(gadd.nodes[i].test, ast.Compare) and
+                                                       dump(gadd.nodes[i].test) in ("cls is None",) and gadd.nodes[i].polarity for i in dominators(gadd)[r_.id])]
+        if all(common.must_pass(gadd, r_.id, [st_add[0].id]) for r_ in rets_add if r_ not in decorator_rets):
+            cond_add = []
     weak = [c for n in gadd.live_nodes() for c in node_calls(n) if isinstance(c.func, ast.Attribute) and dump(c.func.value) == "self" and
             c.func.attr in ("setdefault", "update", "get")]
     ck.require(len(st_add) == 1 and not cond_add and not weak and prov.origin(gadd, st_add[0], st_add[0].ast.value) == ("param", "cls"), "C07.8",
